@@ -524,6 +524,10 @@ class LazyStackedTensorDict(TensorDictBase):
             td.names = names
 
     def _has_names(self):
+        # the stack dim has a name of its own: a stack of unnamed members whose stack
+        # dim is named has names too (``names`` returns [..., stack_dim_name, ...])
+        if self._td_dim_name is not None:
+            return True
         return all(td._has_names() for td in self.tensordicts)
 
     def _erase_names(self):
